@@ -1,9 +1,13 @@
 
+val implb : bool -> bool -> bool
+
 val negb : bool -> bool
 
 type nat =
 | O
 | S of nat
+
+val option_map : ('a1 -> 'a2) -> 'a1 option -> 'a2 option
 
 val fst : ('a1 * 'a2) -> 'a1
 
